@@ -1,4 +1,4 @@
-CONSTANT Parts = {"stripe", "anchor", "vecanchor", "dist"}
+CONSTANT Parts = {"stripe", "anchor", "vecanchor", "dist", "capself"}
 CONSTANT ThetaStep = 25
 CONSTANT KsDeg = {14, 15, 16, 17, 18, 19, 20, 21, 22, 23, 24, 25, 26, 27, 28, 29, 30, 31, 32, 33, 34}
 CONSTANT KsRad = {14, 16, 18, 20, 22, 24, 26, 28, 30, 32, 33, 34, 35, 36, 37, 38, 39, 40}
@@ -22,6 +22,7 @@ INVARIANT C18_DistZeroIffSamePoint
 INVARIANT C18_UnitsExact
 INVARIANT C18_DemandWithinStatement
 INVARIANT C18_ExpZero
+INVARIANT C18_CapSelf
 INVARIANT C18_IntForms
 INVARIANT C18_VecAnchorUnit
 INVARIANT C18_VecAnchorPole
